@@ -226,6 +226,7 @@ var stGuards = []struct{ text, class string }{
 	{"error while re-open stream", "reopen-gave-up"},
 	{"error while load checkpoint", "load-error"},
 	{"error while loading checkpoint document", "load-error"},
+	{"nil pointer dereference", "nil-deref"},
 }
 
 func stClassify(stderr string) string {
@@ -236,6 +237,22 @@ func stClassify(stderr string) string {
 		}
 	}
 	return cls
+}
+
+// case names `nosnap<K>x<VB>`: the stored checkpoint document of vBucket VB has no snapshot section (couchbase back end)
+func stNoSnapVb(name string) int {
+	if !strings.HasPrefix(name, "nosnap") {
+		return -1
+	}
+	i := strings.LastIndex(name, "x")
+	if i < 0 {
+		return -1
+	}
+	v, err := strconv.Atoi(name[i+1:])
+	if err != nil {
+		return -1
+	}
+	return v
 }
 
 func stCheckpointJSON(d ckDoc) []byte {
@@ -328,8 +345,14 @@ func stRun(op string, workDir string) (obs string, tags []string) {
 		extraEnv = append(extraEnv, "VERIF_CHILD_FILE="+fn)
 		defer os.RemoveAll(fn)
 	default:
+		noSnap := stNoSnapVb(t[1])
 		for vb, d := range docs {
-			node.KVPut(0, helpers.Prefix+"st:checkpoint:"+strconv.Itoa(int(vb)), []byte("{}"), map[string][]byte{helpers.Name: stCheckpointJSON(d)})
+			x := stCheckpointJSON(d)
+			if int(vb) == noSnap {
+				// a checkpoint document WITHOUT its snapshot section (an older connector version, a hand-edited document)
+				x = []byte(fmt.Sprintf(`{"checkpoint":{"vbuuid":%d,"seqno":%d},"bucketUuid":"u"}`, d.u, d.s))
+			}
+			node.KVPut(0, helpers.Prefix+"st:checkpoint:"+strconv.Itoa(int(vb)), []byte("{}"), map[string][]byte{helpers.Name: x})
 		}
 	}
 	loadKeys := map[string]bool{}
@@ -1144,6 +1167,16 @@ func runC15W(c *Ctx) {
 			large(n, 1, fmt.Sprintf("large-n%d", n))
 		}
 		large(342, 1, "large-n342")
+		// M. a stored checkpoint document without its snapshot section: checkpoint.Load dereferences it - the client stops (it must
+		// not go on with an invented [0,0] window around a non-zero seqno)
+		for _, vb := range []int{0, 2} {
+			s := stBase(fmt.Sprintf("%sx%d", name("nosnap"), vb), 3, r)
+			for v := uint16(0); v < 3; v++ {
+				s.docs[v] = ckDoc{u: s.flog[v], s: 1 + uint64(r.Intn(int(s.high[v]))), ss: 1, se: s.high[v]}
+			}
+			s.push = vb == 2
+			add(s.op(f7), "checkpoint-without-snapshot")
+		}
 		if c.N(0, 1) == 1 {
 			for _, n := range []int{64, 128, 200, 256, 257, 511, 1000, 1024} {
 				large(n, 1, fmt.Sprintf("large-n%d", n))
